@@ -1,7 +1,7 @@
 (* The case language interpreter: one case (an s-expression) in, one canonical result line out.
    The same function is evaluated in-kernel (vm_compute) and extracted to OCaml. *)
 From Coq Require Import Strings.String.
-From Iso Require Import Model.Base Model.Sexp Model.Padding Model.Encoding Model.Prefix Model.Network Model.Bitmap Model.Spec Model.Field Model.Message Model.Json Model.MessageOps Model.Describe Model.Terms.
+From Iso Require Import Model.Base Model.Sexp Model.Padding Model.Encoding Model.Prefix Model.Network Model.Bitmap Model.Spec Model.Field Model.Message Model.Json Model.MessageOps Model.Describe Model.SpecJson Model.Terms.
 
 Definition S' (s : string) : bytes := list_byte_of_string s.
 
@@ -394,6 +394,26 @@ Definition run_desc (k : nat) (args : list sexp) : bytes :=
   | _ => bad
   end.
 
+Definition run_specjson_export (args : list sexp) : bytes :=
+  match args with
+  | [ms] => match parse_mspec ms with
+            | Some MS => match export_spec MS with
+                         | Ok d => S' "ok " ++ show_jdoc 12 d
+                         | Err _ => S' "err"
+                         | Panic _ => S' "panic"
+                         | OutOfFuel => S' "outoffuel"
+                         end
+            | None => bad
+            end
+  | _ => bad
+  end.
+
+Definition run_specjson_import (args : list sexp) : bytes :=
+  match args with
+  | [d] => match parse_jdoc d with Some jd => show_import (import_spec jd) | None => bad end
+  | _ => bad
+  end.
+
 Definition dispatch (s : sexp) : bytes :=
   match s with
   | SList (Atom name :: args) =>
@@ -404,6 +424,8 @@ Definition dispatch (s : sexp) : bytes :=
       else if bytes_eqb name (S' "pref.enc") then run_pref_enc args
       else if bytes_eqb name (S' "pref.dec") then run_pref_dec args
       else if bytes_eqb name (S' "bm") then run_bm args
+      else if bytes_eqb name (S' "specjson.export") then run_specjson_export args
+      else if bytes_eqb name (S' "specjson.import") then run_specjson_import args
       else if bytes_eqb name (S' "desc.pan") then run_desc 4 args
       else if bytes_eqb name (S' "desc.pin") then run_desc 2 args
       else if bytes_eqb name (S' "fld") then run_fld args
